@@ -431,7 +431,23 @@ def r7_requested_ages(ctx):
     ctx.check(not bad and rets == [px], "C09.R7", tz, bad[0] if bad else tz.node, "tensorize_2D only converts type / dtype / rank", "tensorize_2D changes the values it tensorises", construct="tensorize_2D value-preserving")
 
 
+def r9_reference_feature(ctx):
+    """Shared-speed model: one delta per feature but the first, whose delay is 0 by convention - the padded vector has one entry per feature
+    in every dimension, also with no delta at all (a one-feature model)."""
+    from ..astq import canon_lines
+    ctx.rule("C09.R9", "shared-speed model: exactly one zero is prepended to the deltas, whatever their number (dimension 1 included)", 1)
+    f = ctx.ix.func("leaspy.models.shared_speed_logistic", "SharedSpeedLogisticModel.pad_deltas", "C09.R9")
+    text = "; ".join(canon_lines(f.node, True, True))
+    Z = ["torch.tensor([0.0])", "torch.tensor([0])", "torch.zeros(1)", "torch.zeros((1,))", "$k0.new_zeros(1)", "$k0.new_zeros((1,))", "torch.zeros(1, dtype=$k0.dtype, device=$k0.device)",
+         "torch.zeros((1,), dtype=$k0.dtype, device=$k0.device)", "torch.tensor([0.0], dtype=$k0.dtype, device=$k0.device)"]
+    confirmed = {f"return torch.cat(({z}, $k0))" for z in Z} | {f"return torch.cat([{z}, $k0])" for z in Z}
+    ctx.form("C09.R9", f, f.node, text, confirmed, ["torch.cat(", "$k0"], "one zero (of length 1, independent of the deltas) in front of the deltas",
+             "the padded deltas no longer have one entry per feature: for a one-feature model (no delta) nothing is prepended, the trajectory broadcasts to zero features",
+             forbidden=[r"zeros_like\(\$k0\[", r"\$k0\[:\s*1\]", r"\$k0\[0:\s*1\]", r"\$k0\[:0\]"], construct="padded deltas")
+
+
 def rules(ctx):
+    r9_reference_feature(ctx)
     r1_rt(ctx)
     r2_forms(ctx)
     r3_range(ctx)
